@@ -237,13 +237,12 @@ let spec_spm ops flags =
 (* ------------------------------ object pool ------------------------------ *)
 let run_mp size olen ops =
   let w = ref (mp_world0 size) and obs = ref [] and caps = ref [] and allocs = ref [] and dead = ref false in
-  let registered = ref false in
   let step op =
     match discover (fun o -> r_mp_step olen op !w o) (fun (_, ev) -> ev) with
     | Ok (((out, w1), _), ev) -> heap_events ev; w := w1; Some (out, ev)
     | r -> dead := true; obs := err_name r :: !obs; None in
   let show_out = function
-    | POut (p, reg) -> if reg then registered := true; "p" ^ hex_of_n p ^ (if reg then "!" else "")
+    | POut (p, reg) -> "p" ^ hex_of_n p ^ (if reg then "!" else "")
     | PUnit -> "u" in
   List.iter (fun tok ->
     if !dead then () else
@@ -260,7 +259,7 @@ let run_mp size olen ops =
         if not !dead then
           match step PMalloc with
           | Some (POut (p, reg), ev) ->
-            outs := (hex_of_n p ^ (if reg then (registered := true; "!") else "")) :: !outs;
+            outs := (hex_of_n p ^ (if reg then "!" else "")) :: !outs;
             evs := !evs @ ev;
             if p <> N0 then
               (match step (PFree (n_of_int (List.length (!w).w_held - 1))) with
@@ -272,8 +271,9 @@ let run_mp size olen ops =
         allocs := show_evs !evs :: !allocs end
     | _ -> failwith ("mp op " ^ tok)) ops;
   if not !dead then begin
-    (* process exit: the registered handler runs *)
-    let evx = if !registered then (let ((_, ev), _) = r_mp_atexit olen (!w).w_pool in ev) else [] in
+    (* process exit: the handler runs iff atexit() was called for it (r_mp_exit tests M->state, which
+       equals the number of atexit() calls reported above: C12_mpool_exit_handler_registered) *)
+    let evx = snd (r_mp_exit olen !w) in
     heap_events evx;
     let nlive = match !heap with None -> "bad" | Some h -> string_of_int (List.length h) in
     obs := ("exit" ^ nlive ^ ":" ^ string_of_int (List.length (!w).w_held)) :: !obs;
